@@ -19,6 +19,8 @@ BOUNDS = {
     "thorough": dict(universe="abcd", lengths="{1,2,3} patterns with total size <= 36", array_dims="every ordered subset",
                      kept_summed_added="every subset in every order", naming="letters, names, Dimension objects, mixed"),
 }
+# dtype shadow: every shadowed configuration is run once more on integer-dtype arrays (differential concrete run)
+DTYPE_SHADOW = lambda cfg: cfg["h"] != "shares"
 OPTS = {"quick": dict(shadow_every=50), "thorough": dict(shadow_every=300)}
 STYLES = ["letters", "names", "objects", "mixed"]
 
